@@ -162,13 +162,14 @@ func originPools(c Cfg) (allowed, near []string) {
 	m := NewOriginModel(c.Origins)
 	seenA, seenN := map[string]bool{}, map[string]bool{}
 	addA := func(o string) {
-		if !seenA[o] && m.DenotedBy(o) {
+		// origins beyond the documented component limits (253-byte host, 64-byte scheme) are not judged anywhere
+		if !seenA[o] && hostLenOK(o) && m.DenotedBy(o) {
 			seenA[o] = true
 			allowed = append(allowed, o)
 		}
 	}
 	addN := func(o string) {
-		if _, ok := SplitOrigin(o); ok && !seenN[o] && !m.DenotedBy(o) {
+		if _, ok := SplitOrigin(o); ok && hostLenOK(o) && !seenN[o] && !m.DenotedBy(o) {
 			seenN[o] = true
 			near = append(near, o)
 		}
@@ -176,6 +177,7 @@ func originPools(c Cfg) (allowed, near []string) {
 	for _, p := range m.Pats {
 		addA(instantiate(p, "sub", "8080"))
 		addA(instantiate(p, "a.b", ""))
+		addA(instantiate(p, "s", "8080")) // shortest possible instance, for patterns at the length limit
 		if !strings.HasPrefix(p.Host, "[") {
 			addN(originString(p.Scheme, "x"+p.Host, p.Port))
 			addN(instantiate(Pat{Scheme: p.Scheme, Wild: p.Wild, Host: "x" + p.Host, Port: p.Port}, "sub", "8080"))
